@@ -12,7 +12,10 @@
 use crate::rng::Rng;
 use scylla::cluster::ClusterState;
 use scylla::cluster::metadata::Strategy;
-use scylla::verif_hooks::cluster::{KeyspaceSpec, NodeSpec, cluster_from_topology};
+use scylla::verif_hooks::cluster::{
+    KeyspaceSpec, NodeSpec, cluster_from_topology, cluster_refresh, cluster_refresh_accepting, cluster_refresh_topology,
+    cluster_refresh_topology_accepting,
+};
 use std::collections::HashMap;
 use uuid::Uuid;
 
@@ -174,9 +177,8 @@ thread_local! {
         tokio::runtime::Builder::new_current_thread().enable_all().build().unwrap();
 }
 
-/// Flags word: contains 'd' = disabled by the host filter, 'x' = not connected (C05); default enabled+connected.
-pub fn build_cluster(peers: &[PeerSpec], keyspaces: &[Strat]) -> ClusterState {
-    let nodes: Vec<NodeSpec> = peers
+fn node_specs(peers: &[PeerSpec]) -> Vec<NodeSpec> {
+    peers
         .iter()
         .map(|p| NodeSpec {
             host_id: host_id(p.id),
@@ -186,13 +188,61 @@ pub fn build_cluster(peers: &[PeerSpec], keyspaces: &[Strat]) -> ClusterState {
             enabled: !p.flags.contains('d'),
             connected: !p.flags.contains('x'),
         })
-        .collect();
-    let ks: Vec<KeyspaceSpec> = keyspaces
+        .collect()
+}
+
+fn keyspace_specs(keyspaces: &[Strat]) -> Vec<KeyspaceSpec> {
+    keyspaces
         .iter()
         .enumerate()
         .map(|(i, s)| KeyspaceSpec { name: format!("k{}", i), strategy: to_strategy(s) })
-        .collect();
-    RT.with(|rt| rt.block_on(cluster_from_topology(&nodes, &ks)))
+        .collect()
+}
+
+/// Flags word: contains 'd' = disabled by the host filter, 'x' = not connected (C05); default enabled+connected.
+/// A node's address is derived from its position in `peers`.
+pub fn build_cluster(peers: &[PeerSpec], keyspaces: &[Strat]) -> ClusterState {
+    RT.with(|rt| rt.block_on(cluster_from_topology(&node_specs(peers), &keyspace_specs(keyspaces))))
+}
+
+/// A full metadata refresh of `previous` (`ClusterState::new_updated`): new peers and new keyspaces.
+pub fn refresh_cluster(previous: &ClusterState, peers: &[PeerSpec], keyspaces: &[Strat]) -> ClusterState {
+    RT.with(|rt| rt.block_on(cluster_refresh(previous, &node_specs(peers), &keyspace_specs(keyspaces), &HashMap::new())))
+}
+
+/// A topology-only refresh of `previous` (`ClusterState::new_with_updated_topology`): keyspaces are kept.
+pub fn refresh_cluster_topology(previous: &ClusterState, peers: &[PeerSpec]) -> ClusterState {
+    RT.with(|rt| rt.block_on(cluster_refresh_topology(previous, &node_specs(peers))))
+}
+
+/// Re-imposes the enabled / connected overrides of `previous`' nodes (an earlier rejecting refresh from the same
+/// state may have cleared them on nodes it did not reuse), so that the accepting refreshes below meet enabled nodes.
+fn reimpose(previous: &ClusterState, prev_peers: &[PeerSpec]) {
+    for node in previous.get_nodes_info() {
+        let id = node_id(node.host_id);
+        let flags = prev_peers.iter().find(|p| p.id == id).map(|p| p.flags.as_str()).unwrap_or("");
+        node.verif_override_state(!flags.contains('d'), !flags.contains('x'));
+    }
+}
+
+/// As `refresh_cluster`, with a host filter accepting every peer: enabled nodes of `previous` take the accepted-node
+/// arms of `calculate_new_topology` (reuse / `inherit_with_ip_changed`), changed and new nodes get `Node::new`.
+pub fn refresh_cluster_accepting(
+    previous: &ClusterState,
+    prev_peers: &[PeerSpec],
+    peers: &[PeerSpec],
+    keyspaces: &[Strat],
+) -> ClusterState {
+    reimpose(previous, prev_peers);
+    RT.with(|rt| {
+        rt.block_on(cluster_refresh_accepting(previous, &node_specs(peers), &keyspace_specs(keyspaces), &HashMap::new()))
+    })
+}
+
+/// As `refresh_cluster_topology`, accepting every peer.
+pub fn refresh_cluster_topology_accepting(previous: &ClusterState, prev_peers: &[PeerSpec], peers: &[PeerSpec]) -> ClusterState {
+    reimpose(previous, prev_peers);
+    RT.with(|rt| rt.block_on(cluster_refresh_topology_accepting(previous, &node_specs(peers))))
 }
 
 /// Shape of a generated topology.
